@@ -12,6 +12,7 @@ mod c12;
 mod pdu;
 mod c13;
 mod c14;
+mod c18;
 mod c19;
 mod c20;
 mod util;
@@ -46,6 +47,7 @@ fn main() {
         ("record", "c12") => c12::record(rest),
         ("record", "c14") => c14::run(rest),
         ("record", "c19") => c19::run(rest),
+        ("record", "c18") => c18::run(rest),
         ("replay", "c13") => c13::replay(rest),
         ("record", "c13") => c13::record(rest),
         (m, id) => {
